@@ -105,9 +105,9 @@ theorem C13_closed_flag (s : CState) :
   cases s <;> simp [closedFlag]
 
 /-- While the teardown callbacks run the context is `closing` (bodies never change the state). -/
-theorem C13_state_during_teardown (cid : CtxId) (be : BlockEnd) (st : List Cb) (x : Ctx) :
-    (runTeardown cid be st x).1.state = x.state := by
-  exact (runTeardown_ext cid be st x).state
+theorem C13_state_during_teardown (cid : CtxId) (cur : Option CtxId) (be : BlockEnd) (st : List Cb) (x : Ctx) :
+    (runTeardown cid cur be st x).1.state = x.state := by
+  exact (runTeardown_ext cid cur be st x).state
 
 /-- After the block has been left the context is closed, even if teardown raised. -/
 theorem C13_closed_after_exit (w : World) (t : TaskId) (c : CtxId) (be : BlockEnd) (x : Ctx)
@@ -134,11 +134,11 @@ error (when teardown itself raised nothing; for a root context the block must ha
 normally — an exception of the block propagates through the root's task group first). -/
 theorem C13_children_reported (w : World) (t : TaskId) (c : CtxId) (be : BlockEnd) (x : Ctx)
     (hx : w.ctx? c = some x) (hs : x.state = .opened) (hch : x.children ≠ [])
-    (hnone : (runTeardown c be (effStack be x.tds) { x with state := .closing, tds := [] }).2.2 = [])
+    (hnone : (runTeardown c (w.curOf t) be (effStack be x.tds) { x with state := .closing, tds := [] }).2.2 = [])
     (hroot : be = .ret ∨ x.parent ≠ none) :
     (step w (.exit t c be)).2.getLast? = some .corruption := by
-  have hch2 : (runTeardown c be (effStack be x.tds) { x with state := .closing, tds := [] }).1.children
-      = x.children := (runTeardown_ext c be (effStack be x.tds) _).children
+  have hch2 : (runTeardown c (w.curOf t) be (effStack be x.tds) { x with state := .closing, tds := [] }).1.children
+      = x.children := (runTeardown_ext c (w.curOf t) be (effStack be x.tds) _).children
   simp only [step, hx, hs, ne_eq, not_true_eq_false, if_false]
   rw [List.getLast?_append]
   simp only [hnone, hch2, List.isEmpty_nil, Bool.not_true, Bool.false_eq_true, if_false,
